@@ -41,7 +41,8 @@ def fuzz_shard(modname, target, runs, seed, timeout=3600):
         return st
     fd, out = tempfile.mkstemp(prefix="cmv-fuzz-", suffix=".pkl")
     os.close(fd)
-    env = dict(os.environ, PYTHONPATH=os.pathsep.join([str(DEPS.parent), str(DEPS), os.environ.get("PYTHONPATH", "")]), PYTHONHASHSEED="0")
+    corpus = tempfile.mkdtemp(prefix="cmv-fuzz-corpus-")  # removed below: the campaign leaves through os._exit
+    env = dict(os.environ, CMV_FUZZ_CORPUS=corpus, PYTHONPATH=os.pathsep.join([str(DEPS.parent), str(DEPS), os.environ.get("PYTHONPATH", "")]), PYTHONHASHSEED="0")
     try:
         r = subprocess.run([sys.executable, "-m", "cmv.fuzz", modname, target, str(runs), str(seed), out], env=env, cwd=str(DEPS.parent),
                            capture_output=True, text=True, timeout=timeout)
@@ -54,6 +55,9 @@ def fuzz_shard(modname, target, runs, seed, timeout=3600):
     except subprocess.TimeoutExpired:
         st.discard("fuzz-campaign-timeout")
     finally:
+        import shutil
+
+        shutil.rmtree(corpus, ignore_errors=True)
         try:
             os.unlink(out)
         except OSError:
@@ -110,7 +114,7 @@ def _main(argv):
             dump()
             os._exit(0)
 
-    corpus = tempfile.mkdtemp(prefix="cmv-fuzz-corpus-")
+    corpus = os.environ.get("CMV_FUZZ_CORPUS") or tempfile.mkdtemp(prefix="cmv-fuzz-corpus-")
     atheris.Setup([sys.argv[0], f"-runs={runs * 4 + 1000}", f"-seed={seed or 1}", "-max_len=8192", "-len_control=0", "-print_final_stats=0", corpus], one)
     try:
         atheris.Fuzz()
